@@ -697,6 +697,32 @@ def oracle_C12(results, metas, st):
                     out.append(viol('callback answers %s were not honoured (observed %s)' % (exp, gos), [r['case']])); break
             elif parse_tok(cb[2]) == 0 and 0 in gos:
                 out.append(viol('built-in callback without a target ended the run after %d iterations' % len(cbs), [r['case']])); break
+            elif cb[0] == 'builtin' and isnum(parse_tok(cb[2])) and parse_tok(cb[2]) > 0 and len(run_items) == 1 and dumps_of(r['cxx']):
+                # positive target: the run ends at the first iteration whose variance-weighted combination reaches it, not before
+                target = parse_tok(cb[2]); fmt = FMTS[r['case'][1]]
+                mains = [x['main'] for x in chk_results(dumps_of(r['cxx'])[-1])]
+                bad = None
+                for i, go in enumerate(gos):
+                    live = [x for x in mains[:i + 1] if x[2] != 0]
+                    moms = [c13_moments(fmt, x) for x in live]
+                    if any(mo is None for mo in moms):
+                        # a result with zero (or, in the format, unresolvable) variance: the combination is not a number the target can be compared with
+                        if all(isnum(parse_tok(x[3])) and parse_tok(x[3]) == 0 and isnum(parse_tok(x[4])) and parse_tok(x[4]) == 0 for x in mains[:i + 1]) and go == 0:
+                            bad = 'iteration %d: every sampled value is zero (relative error 0/0) but the run was ended as if the target %s had been reached' % (i, fstr(target))
+                        break
+                    if not live:
+                        if go == 0: bad = 'iteration %d: no finite non-zero evaluation so far, but the run was ended as if the target had been reached' % i
+                        break
+                    if max(mo[2] for mo in moms) * fmt.u * 1024 > Fraction(1, 1000): break
+                    sv = sum(1 / mo[1] for mo in moms); E = sum(mo[0] / mo[1] for mo in moms) / sv; V = 1 / sv
+                    if E == 0: break
+                    ratio2 = V / (E * E); t2 = target * target
+                    if go == 0 and ratio2 > t2 * Fraction(1001, 1000) ** 2:
+                        bad = 'iteration %d: the run was ended although the combined relative error %.6g is above the target %s' % (i, float(ratio2) ** 0.5, fstr(target)); break
+                    if go == 1 and ratio2 < t2 * Fraction(999, 1000) ** 2:
+                        bad = 'iteration %d: the combined relative error %.6g has reached the target %s but the run went on' % (i, float(ratio2) ** 0.5, fstr(target)); break
+                if bad:
+                    out.append(viol(bad, [r['case']])); break
             n_before += len(cbs)
     return out
 
